@@ -32,9 +32,13 @@ def extra_jobs(tier):
 
 
 def run(tier, t0, only=None):
-    res, info = run_wf("C01", tier, only=only)
-    ex = [j for j in extra_jobs(tier) if not only or only in j.name]
-    res += run_jobs(ex)
+    from concurrent.futures import ThreadPoolExecutor
+    exj = [j for j in extra_jobs(tier) if not only or only in j.name]
+    with ThreadPoolExecutor(2) as ex:
+        f1 = ex.submit(run_wf, "C01", tier, None, (2024, 2), True, None, only)
+        f2 = ex.submit(run_jobs, exj, 6)
+        res, info = f1.result()
+        res += f2.result()
     return finish(
         "C01", tier, res, t0,
         assumptions=["arguments of rule applications satisfy the invariant WF (shown inductive by the C02 obligations)",
